@@ -162,10 +162,10 @@ def r2(ctx):
     mapname = u(d.value) if ok else None
     # the map and the writer list come from the helpers
     mdef = [v for _, v in util.assignments_to(run.node, mapname)] if mapname else []
-    okm = len(mdef) == 1 and isinstance(mdef[0], tuple) and mdef[0][0] == "unpack" and isinstance(mdef[0][1], ast.Call) and u(mdef[0][1].func) == "process_haplotag_list_file" and mdef[0][2] == 0
+    okm = (None if not mdef else (len(mdef) == 1 and isinstance(mdef[0], tuple) and mdef[0][0] == "unpack" and isinstance(mdef[0][1], ast.Call) and u(mdef[0][1].func) == "process_haplotag_list_file" and mdef[0][2] == 0))
     ctx.ob(run.qual, "map-from-list-file", okm, run.loc(), "%s is the first result of process_haplotag_list_file" % mapname if okm else "the name->haplotype map is not the first result of process_haplotag_list_file")
     wdef = [v for _, v in util.assignments_to(run.node, wl)]
-    okw = len(wdef) == 1 and isinstance(wdef[0], tuple) and wdef[0][0] == "unpack" and isinstance(wdef[0][1], ast.Call) and u(wdef[0][1].func) == "initialize_io_files" and len(wdef[0][1].args) >= 2 and u(wdef[0][1].args[1]) == "outputs"
+    okw = (None if not wdef else (len(wdef) == 1 and isinstance(wdef[0], tuple) and wdef[0][0] == "unpack" and isinstance(wdef[0][1], ast.Call) and u(wdef[0][1].func) == "initialize_io_files" and len(wdef[0][1].args) >= 2 and u(wdef[0][1].args[1]) == "outputs"))
     ctx.ob(run.qual, "writers-from-outputs", okw, run.loc(), "%s is built by initialize_io_files from `outputs`" % wl if okw else "the writer list is not built by initialize_io_files(reads, outputs, ...)")
     # outputs = [untagged, H1, H2...] in both branches
     outs = [(s, v) for s, v in util.assignments_to(run.node, "outputs") if isinstance(v, ast.AST)]
@@ -242,15 +242,15 @@ def r2(ctx):
             return len(apps) == 1 and len(others) == 1
         return False
 
-    ok = len(comps) >= 2 and all(one_per_output(c) for c in comps)
+    ok = (None if not comps else (len(comps) >= 2 and all(one_per_output(c) for c in comps)))
     ctx.ob(io.qual, "one-writer-per-output-in-order", ok, io.loc(), "output_writers has one writer per entry of outputs, in order, for BAM and FASTQ" if ok else "output_writers is not a plain comprehension over outputs in both formats")
     # list parsing: H<i> -> i, none -> 0, defaultdict(int)
     pl = ctx.func(MOD + ".process_haplotag_list_file")
     h2i = [v for _, v in util.assignments_to(pl.node, "haplotype_to_int") if isinstance(v, ast.AST)]
-    ok = len(h2i) == 1 and isinstance(h2i[0], ast.DictComp) and isinstance(h2i[0].key, ast.JoinedStr) and u(h2i[0].key) == "f'H{%s}'" % u(h2i[0].value) and u(h2i[0].generators[0].iter).replace(" ", "") == "range(1,ploidy+1)"
+    ok = (None if not h2i else (len(h2i) == 1 and isinstance(h2i[0], ast.DictComp) and isinstance(h2i[0].key, ast.JoinedStr) and u(h2i[0].key) == "f'H{%s}'" % u(h2i[0].value) and u(h2i[0].generators[0].iter).replace(" ", "") == "range(1,ploidy+1)"))
     ctx.ob(pl.qual, "H<i>-maps-to-i", ok, pl.loc(), "haplotype_to_int maps 'H<i>' to i for i in 1..ploidy" if ok else "haplotype_to_int is not {f'H{i}': i for i in range(1, ploidy + 1)}")
     none0 = [s for s in util.store_sites(pl.node) if s.kind == "subscript" and u(s.target.value) == "haplotype_to_int" and util.const_key(s.target) == "none"]
-    ok = len(none0) == 1 and isinstance(none0[0].value, ast.Constant) and none0[0].value.value == 0
+    ok = (None if not none0 else (len(none0) == 1 and isinstance(none0[0].value, ast.Constant) and none0[0].value.value == 0))
     ctx.ob(pl.qual, "none-maps-to-0", ok, pl.loc(), "'none' maps to output 0 (untagged)" if ok else "'none' does not map to 0")
     rdefs = [v for _, v in util.assignments_to(pl.node, "readname_to_haplotype") if isinstance(v, ast.AST)]
     def is_dd_int(v, depth=0):
@@ -261,10 +261,10 @@ def r2(ctx):
             return bool(ds) and all(isinstance(x, ast.AST) and is_dd_int(x, depth + 1) for x in ds)
         return False
 
-    ok = len(rdefs) >= 1 and all(is_dd_int(v) for v in rdefs)
+    ok = (None if not rdefs else (len(rdefs) >= 1 and all(is_dd_int(v) for v in rdefs)))
     ctx.ob(pl.qual, "unlisted-reads-default-to-0", ok, pl.loc(), "every construction of readname_to_haplotype is defaultdict(int): unlisted reads go to output 0" if ok else "readname_to_haplotype is not always a defaultdict(int)")
     st = [s for s in util.store_sites(pl.node) if s.kind == "subscript" and u(s.target.value) == "readname_to_haplotype"]
-    ok = len(st) == 1 and u(st[0].target.slice) == "readname" and u(st[0].value) == "haplo_num" and isinstance(util.single_def(pl.node, "haplo_num"), ast.Subscript) and u(util.single_def(pl.node, "haplo_num")) == "haplotype_to_int[haplo_name]"
+    ok = (None if not st else (len(st) == 1 and u(st[0].target.slice) == "readname" and u(st[0].value) == "haplo_num" and isinstance(util.single_def(pl.node, "haplo_num"), ast.Subscript) and u(util.single_def(pl.node, "haplo_num")) == "haplotype_to_int[haplo_name]"))
     ctx.ob(pl.qual, "entry-stored-under-its-name", ok, pl.loc(st[0].stmt) if st else pl.loc(), "readname_to_haplotype[readname] = haplotype_to_int[haplo_name]" if ok else "list entries are not stored as readname -> haplotype_to_int[haplo_name]")
     # --only-largest-block: a block is identified by (chromosome, phase set) in every table that speaks about it
     sizes = [n for n in walk_function(pl.node) if isinstance(n, ast.AugAssign) and u(n.target).startswith("block_sizes[")]
@@ -272,7 +272,7 @@ def r2(ctx):
     sel = ctx.func(MOD + ".select_reads_in_largest_phased_blocks")
     sparams = util.params_of(sel.node)
     look = [x for x in walk_function(sel.node) if isinstance(x, ast.Subscript) and u(x.value) == sparams[1]]
-    ok = len(sizes) == 1 and u(sizes[0].target) == "block_sizes[chromosome][phaseset]" and len(names) == 1 and u(names[0].func.value) == "blocks_to_readnames[chromosome, phaseset]" and u(names[0].args[0]) == "readname"
+    ok = (None if not sizes else (len(sizes) == 1 and u(sizes[0].target) == "block_sizes[chromosome][phaseset]" and len(names) == 1 and u(names[0].func.value) == "blocks_to_readnames[chromosome, phaseset]" and u(names[0].args[0]) == "readname"))
     ok = ok and len(look) == 1 and u(look[0].slice) in ("(chromosome, block_name)",)
     loops = [n for n in walk_function(sel.node) if isinstance(n, ast.For) and u(n.iter) == "%s.items()" % sparams[0]]
     ok = ok and len(loops) == 1 and [u(t) for t in loops[0].target.elts] == ["chromosome", "block_counts"] and any(isinstance(n, ast.Assign) and u(n.value) == "block_counts.most_common(1)[0]" and u(n.targets[0].elts[0]) == "block_name" for n in ast.walk(loops[0]))
@@ -294,11 +294,11 @@ def r2(ctx):
         okl = True if (inside_loop and feeds) else (False if not inside_loop else None)
         ctx.ob(sel.qual, "largest-block-of-every-chromosome-collected", okl, sel.loc(look[0]), "the reads of the largest block are added to the selection inside the chromosome loop" if okl else ("the block's reads are looked up after the chromosome loop: only the last chromosome's largest block is selected, reads of all other chromosomes are treated as untagged" if not inside_loop else "cannot see how the looked-up reads reach the returned selection"))
     rets = [n for n in walk_function(pl.node) if isinstance(n, ast.Return)]
-    ok = len(rets) == 1 and isinstance(rets[0].value, ast.Tuple) and u(rets[0].value.elts[0]) == "readname_to_haplotype"
+    ok = (None if not rets else (len(rets) == 1 and isinstance(rets[0].value, ast.Tuple) and u(rets[0].value.elts[0]) == "readname_to_haplotype"))
     ctx.ob(pl.qual, "returns-map-first", ok, pl.loc(rets[0]) if rets else pl.loc(), "the map is the first returned value" if ok else "process_haplotag_list_file does not return the map first")
     # untagged processing flag and add-untagged fan-out
     ph = [s for s in util.store_sites(run.node) if s.kind == "subscript" and u(s.target) == "process_haplotype[0]"]
-    ok = len(ph) == 1 and isinstance(ph[0].value, ast.BoolOp) and isinstance(ph[0].value.op, ast.Or) and {u(v) for v in ph[0].value.values} == {"process_haplotype[0]", "add_untagged"}
+    ok = (None if not ph else (len(ph) == 1 and isinstance(ph[0].value, ast.BoolOp) and isinstance(ph[0].value.op, ast.Or) and {u(v) for v in ph[0].value.values} == {"process_haplotype[0]", "add_untagged"}))
     ctx.ob(run.qual, "add-untagged-enables-output-0", ok, run.loc(ph[0].stmt) if ph else run.loc(), "untagged reads are processed when --output-untagged or --add-untagged is given" if ok else "process_haplotype[0] is not `process_haplotype[0] or add_untagged`")
     fan = _fanout_writes(loop, rec)
     ok = False
@@ -373,7 +373,7 @@ def r4(ctx):
         shp = util.printed_shape(fi.node, pr[0])
         if shp is not None:
             rowkey = u(loops[0].target)
-            okc = len(shp) == 2 and shp[0][0] == "one" and u(shp[0][1]) == rowkey and shp[1][0] == "each" and shp[1][3] == util.params_of(fi.node)[0] and u(shp[1][1]) == "%s[%s]" % (shp[1][2], rowkey)
+            okc = (None if not shp else (len(shp) == 2 and shp[0][0] == "one" and u(shp[0][1]) == rowkey and shp[1][0] == "each" and shp[1][3] == util.params_of(fi.node)[0] and u(shp[1][1]) == "%s[%s]" % (shp[1][2], rowkey)))
     ctx.ob(fi.qual, "one-count-per-output", okc, fi.loc(loops[0]), "each row prints lc[length] for every output's counter in order" if okc else "row counts are not (lc[length] for lc in length_counts)")
 
 
